@@ -1660,10 +1660,14 @@ def remove_redundant_transpose_pairs_ir(graph: ir.Graph) -> None:
                 cur = consumers[0]
                 T2: Optional[ir.Node] = None
                 steps = 0
+                chain_value: Optional[ir.Value] = T1_out
                 while steps < 8:
                     steps += 1
                     m = cur
                     if m.op_type in ALLOWED_ELEMWISE:
+                        if not _side_inputs_are_scalar(m, chain_value):
+                            break
+                        chain_value = _node_output(m)
                         chain_nodes.append(m)
                         allowed_nodes.append(m)
                         cur_val = _node_output(m)
@@ -1801,6 +1805,7 @@ def remove_redundant_reshape_pairs_ir(graph: ir.Graph) -> None:
                 if (
                     prod_node.op_type in ALLOWED_ELEMWISE
                     and (getattr(prod_node, "domain", "") or "") == ""
+                    and _side_inputs_are_scalar(prod_node, _first_input(prod_node))
                 ):
                     allowed_nodes.append(prod_node)
                     v = _first_input(prod_node)
@@ -2218,6 +2223,23 @@ def _value_is_graph_output(graph: ir.Graph, value: ir.Value | None) -> bool:
         if value_name and value_name == _v_name(output):
             return True
     return False
+
+
+def _side_inputs_are_scalar(node: ir.Node, data_value: Optional[ir.Value]) -> bool:
+    """Check that ``node`` is elementwise in ``data_value`` only.
+
+    Layout/shape folds move a single data operand through the node; every
+    other tensor operand must be a broadcast scalar. CastLike's second input
+    only supplies a dtype.
+    """
+    for index, iv in enumerate(_node_inputs(node)):
+        if iv is None or iv is data_value:
+            continue
+        if node.op_type == "CastLike" and index == 1:
+            continue
+        if not _is_scalar_const_value(iv):
+            return False
+    return True
 
 
 def rewrite_mul_sigmoid_as_swish_ir(graph: ir.Graph) -> None:
